@@ -1,4 +1,5 @@
 import OutlineModel.Proofs.TieReplay
+import OutlineModel.Proofs.TieAuth
 import OutlineModel.Proofs.Replay
 import OutlineModel.Gen.Consts
 import OutlineModel.Gen.Wiring
@@ -230,5 +231,82 @@ theorem code_exactly_one_winner {N : Nat} (id salt : List UInt8) (hs : List (Lis
   have hcap' : (N : Int) ≤ (Tie.Replay.abs c).cap := hcap
   rw [exactly_one_winner (N := N) (Replay.preHash id salt) _ (Tie.Replay.abs c) hcap' hN hfresh
     (Tie.Replay.capsGE_map_add N hs) (by rw [Tie.Replay.numAdds_map_add]; exact hnum) hp]
+
+/-! ### the translated stream authenticator (the function literal of `NewShadowsocksStreamAuthenticator`, service/tcp.go) -/
+
+section Authenticator
+variable (newReader : GoRT.Opaque "io.Reader" → GoRT.Opaque "shadowsocks.EncryptionKey" → GoRT.Opaque "shadowsocks.Reader")
+  (newWriter : Tie.Auth.Conn → GoRT.Opaque "shadowsocks.EncryptionKey" → GoRT.Opaque "shadowsocks.Writer")
+  (isSrv : GoRT.Opaque "service.ServerSaltGenerator" → List UInt8 → Bool)
+  (wrap : Tie.Auth.Conn → GoRT.Opaque "shadowsocks.Reader" → GoRT.Opaque "shadowsocks.Writer" → Tie.Auth.Conn)
+  (findAccessKey : Tie.Auth.Conn → GoRT.Opaque "netip.Addr" → GoRT.Opaque "service.CipherList" → GoRT.Opaque "slog.Logger" → Tie.Auth.FA)
+  (remoteIP : Tie.Auth.Conn → GoRT.Opaque "netip.Addr")
+  (ciphers : GoRT.Opaque "service.CipherList") (metrics : GoRT.Opaque "service.ShadowsocksConnMetrics")
+  (l : GoRT.Opaque "slog.Logger")
+
+/-- **code_authenticator_replay_verdict**: the translated authenticator, whenever the key search found an entry `e` for
+    a salt that is not one of the server's own: never panics; the replay cache afterwards and the verdict are exactly the
+    model's `add` of the checksum of (key id, salt) — accepted (no error, the connection is wrapped) iff the model's
+    cache had not seen that checksum within its window, ERR_REPLAY_CLIENT otherwise; the key id reported is `e`'s. -/
+theorem code_authenticator_replay_verdict (rc : Gen.Code.ReplayCache) (conn : Tie.Auth.Conn)
+    (e : Gen.Code.CipherEntry) (rd : GoRT.Opaque "io.Reader") (salt : List UInt8) (t : Int)
+    (hfa : findAccessKey conn (remoteIP conn) ciphers l = (some e, rd, salt, t, none))
+    (hns : isSrv e.SaltGenerator salt = false) :
+    (Gen.Code.NewShadowsocksStreamAuthenticator newReader newWriter isSrv wrap findAccessKey remoteIP ciphers rc metrics l conn).map
+        (fun r => (Tie.Replay.abs r.1, r.2.1, r.2.2.2.1)) =
+      some (((Tie.Replay.abs rc).add (Replay.preHash (String.toUTF8 e.ID).toList salt)).1, e.ID,
+        if ((Tie.Replay.abs rc).add (Replay.preHash (String.toUTF8 e.ID).toList salt)).2 = true then none else some "ERR_REPLAY_CLIENT") := by
+  rw [Tie.Auth.authenticator_tie, hfa, Tie.Auth.outcome_found]
+  have h := code_add_refines_model rc (String.toUTF8 e.ID).toList salt
+  generalize (String.toUTF8 e.ID).toList = idb at h ⊢
+  cases hadd : Gen.Code.ReplayCache.Add rc idb salt with
+  | none => rw [hadd] at h; simp at h
+  | some p =>
+    obtain ⟨rc', fresh⟩ := p
+    rw [hadd] at h
+    simp only [Option.map_some, Option.some.injEq] at h
+    have h1 : Tie.Replay.abs rc' = ((Tie.Replay.abs rc).add (Replay.preHash idb salt)).1 := by rw [← h]
+    have h2 : fresh = ((Tie.Replay.abs rc).add (Replay.preHash idb salt)).2 := by rw [← h]
+    rw [← h1, ← h2]
+    cases fresh <;> simp [hns]
+
+/-- **code_authenticator_refuses_replay_within_window**: two runs of the translated authenticator that find the same
+    entry for the same salt, on a cache of capacity ≥ N > 0 with fewer than N other `Add`s between them: the second is
+    refused with ERR_REPLAY_CLIENT and hands back no connection. -/
+theorem code_authenticator_refuses_replay_within_window {N : Nat} (rc0 : Gen.Code.ReplayCache) (conn conn' : Tie.Auth.Conn)
+    (e : Gen.Code.CipherEntry) (rd rd' : GoRT.Opaque "io.Reader") (salt : List UInt8) (t t' : Int)
+    (mid : List (List UInt8 × List UInt8))
+    (hfa : findAccessKey conn (remoteIP conn) ciphers l = (some e, rd, salt, t, none))
+    (hfa' : findAccessKey conn' (remoteIP conn') ciphers l = (some e, rd', salt, t', none))
+    (hns : isSrv e.SaltGenerator salt = false)
+    (hcap : (N : Int) ≤ rc0.capacity) (hnum : mid.length < N) :
+    ∃ rc1 id1 c1 st1 ef1 rc2 rc3 ef3,
+      Gen.Code.NewShadowsocksStreamAuthenticator newReader newWriter isSrv wrap findAccessKey remoteIP ciphers rc0 metrics l conn =
+        some (rc1, id1, c1, st1, ef1) ∧
+      codeAdds rc1 mid = some rc2 ∧
+      Gen.Code.NewShadowsocksStreamAuthenticator newReader newWriter isSrv wrap findAccessKey remoteIP ciphers rc2 metrics l conn' =
+        some (rc3, e.ID, ⟨0⟩, some "ERR_REPLAY_CLIENT", ef3) := by
+  obtain ⟨c1, b, c2, c3, hA, hB, hC⟩ := window_code (N := N) rc0 (String.toUTF8 e.ID).toList salt mid hcap hnum
+  simp only [Tie.Auth.authenticator_tie, hfa, hfa', Tie.Auth.outcome_found]
+  generalize (String.toUTF8 e.ID).toList = idb at hA hC ⊢
+  refine ⟨c1, ?_⟩
+  cases b
+  · simp only [hns, hA, hC, Bool.false_eq_true, if_false]
+    exact ⟨_, _, _, _, c2, c3, _, rfl, hB, by rw [hC]; rfl⟩
+  · simp only [hns, hA, hC, Bool.false_eq_true, if_false, if_true]
+    exact ⟨_, _, _, _, c2, c3, _, rfl, hB, by rw [hC]; rfl⟩
+
+/-- **code_authenticator_leaves_cache_alone_without_a_key**: when the key search fails, the translated authenticator
+    reports ERR_CIPHER with an empty key id, does not touch the replay cache, and reports exactly one cipher search,
+    as not found. -/
+theorem code_authenticator_leaves_cache_alone_without_a_key (rc : Gen.Code.ReplayCache) (conn : Tie.Auth.Conn)
+    (ent : Option Gen.Code.CipherEntry) (rd : GoRT.Opaque "io.Reader") (salt : List UInt8) (t : Int) (err : String)
+    (hfa : findAccessKey conn (remoteIP conn) ciphers l = (ent, rd, salt, t, some err)) :
+    Gen.Code.NewShadowsocksStreamAuthenticator newReader newWriter isSrv wrap findAccessKey remoteIP ciphers rc metrics l conn =
+      some (rc, "", ⟨0⟩, some "ERR_CIPHER", [Tie.Auth.searchEff metrics false t]) := by
+  rw [Tie.Auth.authenticator_tie, hfa]
+  simp [Tie.Auth.outcome]
+
+end Authenticator
 
 end OutlineModel.Props.C07
